@@ -92,7 +92,8 @@ Hdr(type, len, xid) == <<4, type>> \o BE16(len) \o xid
 Msg(type, xid, body) == Hdr(type, 8 + Len(body), xid) \o body
 EncHelloElem(e) == Pad8(<<0, 1>> \o BE16(4 + 4 * Len(e.Bitmaps)) \o Flat(e.Bitmaps))
 EncTlvMap(m) == m.OptClass \o m.OptType \o m.OptLength \o m.Index \o Zeros(2)
-EncBundleProp(p) == Pad8(<<255, 255>> \o BE16(12 + Len(p.Data)) \o p.ExperimenterID \o p.ExperimenterType \o p.Data)
+\* an experimenter property; a projected Go value keeps its data unexported and carries its own encoding as raw
+EncBundleProp(p) == IF Has(p, "raw") THEN p.raw ELSE Pad8(<<255, 255>> \o BE16(12 + Len(p.Data)) \o p.ExperimenterID \o p.ExperimenterType \o p.Data)
 EncPort(p) == p.PortNo \o Zeros(4) \o p.HWAddr \o Zeros(2) \o p.Name \o p.Config \o p.State \o p.Curr \o p.Advertised
               \o p.Supported \o p.Peer \o p.CurrSpeed \o p.MaxSpeed
 RECURSIVE EncMsg(_)
@@ -102,7 +103,8 @@ EncVendorData(d) ==
     [] d.T = "TLVTableMod"   -> d.Command \o Zeros(6) \o EncList(EncTlvMap, d.TlvMaps)
     [] d.T = "TLVTableReply" -> d.MaxSpace \o d.MaxFields \o Zeros(10) \o EncList(EncTlvMap, d.TlvMaps)
     [] d.T = "BundleControl" -> d.BundleID \o d.Type \o d.Flags
-    [] d.T = "BundleAdd"     -> d.BundleID \o Zeros(2) \o d.Flags \o EncMsg(d.Message) \o EncList(EncBundleProp, d.Properties)
+    [] d.T = "BundleAdd"     -> d.BundleID \o Zeros(2) \o d.Flags
+                                \o (IF d.Properties = <<>> THEN EncMsg(d.Message) ELSE Pad8(EncMsg(d.Message)) \o EncList(EncBundleProp, d.Properties))
     [] d.T = "raw"           -> d.Data
 EncMpBody(b) ==
   IF b.T = "nil" THEN <<>> ELSE
